@@ -613,8 +613,8 @@ Qed.
 Lemma table_sys_sound t : us_sound (table_sys t).
 Proof.
   intros a b m da db. simpl. unfold table_dim, table_conv.
-  destruct (root_of t a) as [[fa da']|]; simpl; [|discriminate]. intros [= ->].
-  destruct (root_of t b) as [[fb db']|]; simpl; [|discriminate]. intros [= ->].
+  destruct (table_root t a) as [[[fa oa] da']|]; simpl; [|discriminate]. intros [= ->].
+  destruct (table_root t b) as [[[fb ob] db']|]; simpl; [|discriminate]. intros [= ->].
   destruct (decide (da = db)); split; intros; try contradiction; eauto.
 Qed.
 
@@ -889,3 +889,17 @@ Lemma example_check :
     [VQty (mkq 1 1) (mkuc [("kilometer", mkq 1 1)])] (list_to_map [("b", VNum (mkq 1 1))])
     = Ok [VQty (mkq 1 1) (mkuc [("kilometer", mkq 1 1)]); VNum (mkq 1 1)].
 Proof. split; by_compute. Qed.
+
+(** offset units convert affinely: wraps(None, 'kelvin')(f)(Q(25, 'degC')) hands over 298.15 *)
+Definition temp_table : table :=
+  list_to_map [ ("kelvin", UI (mkq 1 1) (mkuc [("[temperature]", mkq 1 1)]));
+                ("degree_Celsius", UIo (mkq 1 1) (mkq 5463 20) (mkuc [("[temperature]", mkq 1 1)]));
+                ("degree_Fahrenheit", UIo (mkq 5 9) (mkq 45967 180) (mkuc [("[temperature]", mkq 1 1)])) ].
+Lemma example_offset :
+  wraps_observed (table_sys temp_table) repaired true
+    (parse_wrap_args [SUnit (mkuc [("kelvin", mkq 1 1)]) true; SUnit (mkuc [("degree_Fahrenheit", mkq 1 1)]) false])
+    [Param "a" None; Param "b" None]
+    [VQty (mkq 25 1) (mkuc [("degree_Celsius", mkq 1 1)])]
+    (list_to_map [("b", VQty (mkq 25 1) (mkuc [("degree_Celsius", mkq 1 1)]))])
+  = Ok [VNum (mkq 5963 20); VNum (mkq 77 1)].
+Proof. by_compute. Qed.
